@@ -34,6 +34,7 @@ PROPS = {
         "level": "fault_enumeration",
         "modes": [
             {"mode": "crash", "quick": {"runs": 35 * 60}, "thorough": {"runs": 35 * 3000}},
+            {"mode": "crashfaults", "quick": {"runs": 35 * 40}, "thorough": {"runs": 35 * 3000}},
         ],
         "rule": ("run index = shape x position: for every generated small transaction shape (1-4 keys over 1-3 regions, put/delete/insert/"
                  "lock-only, optimistic/pessimistic, with sampled companions: seed writer, readers, conflicting writer, split) the committing "
@@ -134,6 +135,21 @@ PROPS = {
         "real_vs_stub": REAL_TXN + "; also real: tikv/gc.go, txnkv/rangetask, tikv/safepoint.go cache",
         "assumptions": ["backend M (mocktikv)", "populations are small (<= 6 keys): 'any number of locks per region relative to the scan limit' is explored through small limits"],
     },
+    "C17": {
+        "engine": "latchsim",
+        "level_text": "the real Latches / LatchesScheduler; mode direct-enum enumerates completely every scenario of 1-3 transactions x 1-2 colliding keys with every relative timestamp order and, inside each, every interleaving of acquire/release steps at method and slot granularity (states merged); mode direct samples 2-4 transactions x 1-3 keys; mode sched runs the scheduler goroutine and 2-4 callers with every shared-memory step (verif-tagged yield points in acquireSlot / releaseSlot / wakeup / Lock) released one at a time by the seeded simulator; a per-KEY reference latch model checks exclusivity, the exact staleness verdict and progress (every Lock returns within a step bound after the last unlock)",
+        "level_note": "trusted: the per-key reference model (sim/engines/latchsim/model.go), the hook placement (never under a mutex); exhaustive only at the stated step granularity on one thread; slot-list recycling (timestamps minutes apart, >= 5 nodes per slot) is outside the property's quantification and only reachable in the opt-in mode direct-wide",
+        "level": "exploration",
+        "modes": [
+            {"mode": "direct-enum", "quick": {"runs": 20800}, "thorough": {"runs": 81000}},
+            {"mode": "direct", "quick": {"runs": 1600}, "thorough": {"runs": 16000}},
+            {"mode": "sched", "quick": {"runs": 16000}, "thorough": {"runs": 160000}},
+        ],
+        "rule": ("direct-enum: run index = scenario of the complete enumeration (the enumeration ends by itself: 20688 scenarios quick, 80560 thorough tier), all step interleavings explored inside a run; "
+                 "direct: seeded scenarios, exploration cut at 3000 distinct states; sched: seeded schedules of parked goroutines; non-trivial = at least two transactions contend; distinct = canonical step histories"),
+        "real_vs_stub": "real code: internal/latch (latch.go, scheduler.go) with the verif yield hooks; nothing stubbed",
+        "assumptions": ["memory-model effects below the granularity of the yield points are out of scope"],
+    },
     "C20": {
         "engine": "backoffsim",
         "level_text": "the real retry.Backoffer runs on the simulated clock; generated programs (back-offs over own and exported kinds with per-call maxima, budgets 0..700 s, weights 1-3, clone / fork groups in the library's three usage shapes on concurrent goroutines / merge / reset) with a canceller and a killer acting at seed-chosen instants incl. mid-sleep; a shadow model of what every lineage really slept judges every call: budget plus one step, excluded-kind limit, per-call maximum and cap, exhaustion error kind, cancellation and kill behaviour, fork/clone start and merge accounting; tiny programs are enumerated completely up to length 3 (quick) / 4 (thorough)",
@@ -182,4 +198,7 @@ ENGINES.append({"name": "mvccdiff", "path": "sim/engines/mvccdiff", "serves_prop
 ENGINES.append({"name": "backoffsim", "path": "sim/engines/backoffsim", "serves_properties": ["C20"],
                 "kind_free_text": "the real Backoffer on the simulated clock with concurrent forks, seeded cancellation / kill instants and a shadow accounting model"})
 
-HOOK_COMMITS = []
+ENGINES.append({"name": "latchsim", "path": "sim/engines/latchsim", "serves_properties": ["C17"],
+                "kind_free_text": "exhaustive and seeded interleaving exploration of the local latch scheduler against a per-key reference model (yield hooks in internal/latch)"})
+
+HOOK_COMMITS = ["a62b6a3 verif hook: internal/simhook yield points in the local latch scheduler"]
